@@ -14,10 +14,16 @@ RULE = ("the real qmail-local.c main() (ASan+UBSan build of the working tree, ru
         "and with the x bit, with -n; real deliveries with stand-in commands for all 256 exit codes in two shapes and every sequence of up to %s "
         "lines from a 16-line delivery set (mbox, maildir, missing maildir, exit 0/99/100/111/1, kill -9, forwards, +list); 16 home modes x 20 "
         "file modes x {-n, deliver}; 16 message shapes (own Delivered-To in header/body/unterminated/case-changed/NUL) x 4 recipients x 9 "
-        "hosts; 22 hostile senders x owner/VERP files; %s seeded random homes/extensions/bodies/messages (incl. EIO/EACCES, directories, "
-        "NUL bytes, names around NAME_MAX). Compared on exit code, stdout, diagnostic, names opened (in order), delivery events (in order), "
-        "forward envelope and body, and 12 environment variables; the oracle is Nq.LocalSpec (documented search order, permissions, loop "
-        "rule, instruction semantics, exit-code classes, one-line header fields) evaluated on the implementation's output; "
+        "hosts; the recipient's own Delivered-To line (and a one-character miss, a prefix, the line after the header) at every start offset "
+        "B-len-2..B+2 around B = 128..8192 (read-buffer boundaries) x 2 header line lengths; control files whose instruction lines straddle "
+        "offsets 256/512/1024; 22 hostile senders x owner/VERP files; %s seeded random homes/extensions/bodies/messages (incl. EIO/EACCES, directories, "
+        "NUL bytes, names around NAME_MAX, headers padded to random lengths up to 9000 bytes). Compared on exit code, stdout, diagnostic, "
+        "names opened (in order), names given to stat (in order), delivery events (in order), forward envelope and body, and 12 environment "
+        "variables; the oracle is Nq.LocalSpec.outcome - the function C13_run_outcome proves the model equal to - (documented refusals, "
+        "instruction semantics, exit-code classes, forward last) plus the documented search order, confinement of every name opened or "
+        "stat'ed, owner names, $DEFAULT, loop rule in both directions, one-line header fields, and a post-run scan of the home directory "
+        "(every new or changed file must be explained by an observed delivery event; none when no file delivery is documented), all "
+        "evaluated on the implementation's output; "
         "non-trivial = distinct case in which an instruction was acted on or a failure was reported")
 
 
